@@ -116,7 +116,7 @@ def write_replay(pid, tier, v):
             f'"""Plain replay of one violating case of {pid} without the explorer.\n'
             f"Run: PYTHONPATH=/repo/src:/verif PYTHONHASHSEED=0 /venv/bin/python -m pytest -p no:cacheprovider {test}\n"
             f'"""\nimport json\n\nfrom mc.props import {pid.lower()} as prop\n\n\n'
-            f"def test_replay():\n    rep = json.load(open({path!r}))\n    vs = prop.replay(rep)\n"
+            f"def test_replay():\n    rep = json.load(open({path!r}))\n    from mc import dsl\n\n    dsl.VIA = rep.get('via', 'ctor')  # construction path of the generated nodes\n    vs = prop.replay(rep)\n"
             f"    assert not vs, vs\n"
         )
     return path
